@@ -310,27 +310,16 @@ fn machine_for_text(text: &str, rep: &mut Report) {
 
 pub fn run(kv: &BTreeMap<String, String>) -> String {
     let n: usize = kv.get("n").map(|s| s.parse().unwrap()).unwrap_or(6);
-    const NS: usize = 32;
-    let parts = par_shards(NS + 1, 16 << 20, move |shard, _| {
+    const NS: usize = 25;
+    let parts = par_shards(NS, 16 << 20, move |shard, _| {
         let mut rep = Report::default();
-        let alpha = ["a", "é", "\n", "\r"];
-        if shard < NS {
-            for_each_string(&alpha, n, shard, NS, &mut |t, len| {
-                machine_for_text(t, &mut rep);
-                *rep.by_bound.entry(format!("len={}", len)).or_insert(0) += 1;
-                if t.contains('\n') || t.contains('\r') { rep.nontrivial += 1; }
-            });
-        } else {
-            let mut buf = String::new();
-            for_each_string(&alpha, n.saturating_sub(1), 0, 1, &mut |t, len| {
-                buf.clear();
-                buf.push('\u{feff}');
-                buf.push_str(t);
-                machine_for_text(&buf, &mut rep);
-                *rep.by_bound.entry(format!("bom+len={}", len)).or_insert(0) += 1;
-                if t.contains('\n') || t.contains('\r') { rep.nontrivial += 1; }
-            });
-        }
+        // U+FEFF is a BOM only at offset 0; anywhere else (e.g. first on a later line) it is an ordinary character that takes a column
+        let alpha = ["a", "é", "\n", "\r", "\u{feff}"];
+        for_each_string(&alpha, n, shard, NS, &mut |t, len| {
+            machine_for_text(t, &mut rep);
+            *rep.by_bound.entry(format!("len={}", len)).or_insert(0) += 1;
+            if t.contains('\n') || t.contains('\r') { rep.nontrivial += 1; }
+        });
         rep
     });
     let mut rep = Report::default();
